@@ -305,6 +305,14 @@ COMPILE = [
                                 "is_start(self, jump_over_body as int)", "op_at(code(self), jump_over_body as int) == Opcode::Jump", "jump_over_body >= code(old(self)).len()", "fresh(&sc(self))", "code(self).len() > code(old(self)).len()"],
                      decreases="jump_body_v@.len() - verif_j", body_prologue=BCAST),
              3: dict(invariant=["verif_j <= jump_end_v@.len()", "gen(old(self), self)", "jumps_ok(self, old(self), jump_end_v@, verif_j as int)"], decreases="jump_end_v@.len() - verif_j", body_prologue=BCAST)}),
+    m("new", ret="r", ensures=["cwf(&r)", "r.scope_index == 0", "code(&r).len() == 0", "r.encoding_error is None", "st_depth(&r.symtab) == 0"],
+      rewrites=[dict(rule="R7", re=r"let mut symtab = SymbolTable::default\(\);.*?(?=let main_scope)", to="let symtab = symtab_with_builtins();\n        ", expect=1, strict=True,
+                     why="the registration of builtin functions and variables in a fresh symbol table (two loops over static tables) replaced by a shim: it touches nothing but that table"),
+                dict(rule="R9g", re=r"(let main_scope = scope_default\(\);|let main_scope = CompilationScope::default\(\);)", to=r"\1 let ghost verif_ms = main_scope;", why="ghost copy of the empty scope")],
+      epilogue="assert(verif_ret.scopes@[0] == verif_ret.scopes@[verif_ret.scope_index as int]); lemma_new(&verif_ret);"),
+    m("new_with_state", ret="r", ensures=["cwf(&r)", "r.scope_index == 0", "code(&r).len() == 0", "r.encoding_error is None"],
+      rewrites=[dict(rule="R0", re=r"Self::new\(\)", to="Compiler::new()", why="Self -> the type's name")]),
+    m("compile", ret="r", requires=PRE, ensures=["r is Ok ==> cwf(final(self)) && final(self).encoding_error is None"], props=["C01", "C14"]),
     m("enter_scope", requires=PRE,
       ensures=["cwf(final(self))", "final(self).scope_index == old(self).scope_index + 1", "final(self).scopes@.len() == old(self).scopes@.len() + 1",
                "forall|j: int| 0 <= j < old(self).scopes@.len() ==> final(self).scopes@[j] == old(self).scopes@[j]",
